@@ -298,6 +298,41 @@ def views(ctx, crate):
         e = Engine(crate); e.run(fn); ctx.functions |= e.visited_fns
         eqs = [d for d, loc in e.branches if loc[0] == fn and d[0] == 'op' and d[1] == 'eq']
         ctx.report(clause, "to_ranges:merge-only-adjacent", len(eqs) >= 2, "to_ranges extends the pending range only under %s" % [show(d)[:80] for d in eqs[:2]], at=b.span, kind="N")
+        # what the pending range becomes: with [S, E) the range of the current cell (S = h << 2Δ, E = (h + 1) << 2Δ;
+        # S = h, E = h + 1 for a cell of the deepest level), `S == pending.end` extends the end to E, anything
+        # else starts a new pending range [S, E)
+        e2 = Engine(crate); asg = []
+        def vh(v, loc, facts):
+            lhs = e2.cur_lhs
+            if loc[0] == fn and not lhs["p"]: asg.append((lhs["l"], v, facts, loc))
+        e2.value_hook = vh
+        e2.run(fn)
+        def end_of(S):
+            if S[0] == 'op' and S[1] == 'shl': return ('op', 'shl', S[2], ('op', 'add', S[2], S[3], C('u64', 1)), S[4])
+            return ('op', 'add', 'u64', S, C('u64', 1))
+        bad = []; n_ext = n_new = 0
+        for l, v, facts, loc in asg:
+            for f in facts:
+                if f[0] != 'b' or f[1][0] != 'op' or f[1][1] != 'eq' or f[1] not in eqs: continue
+                S, P = f[1][3], f[1][4]
+                if P[0] != 'phi' and S[0] == 'phi': S, P = P, S
+                E = end_of(S)
+                if f[2]:          # run extended: the only thing written is the new end
+                    if v == E or (S[0] != 'op' and v == ('op', 'add', 'u64', P, C('u64', 1))): n_ext += 1
+                    elif v[0] in ('op', 'phi', 'fld') or v[0] == 'c':
+                        if term_is_u64(v): bad.append(("extend", show(v)[:60], show(E)[:60]))
+                else:             # new pending range: start S, end E
+                    if v == S or v == E: n_new += 1
+                    elif v[0] == 'op' and term_is_u64(v) and v[1] in ('add', 'shl'): bad.append(("new", show(v)[:60], show(E)[:60]))
+        ctx.report(clause, "to_ranges:pending-range-updates", not bad and n_ext >= 2 and n_new >= 4,
+                   "%d extensions to the end of the cell's range, %d (start, end) of a new pending range" % (n_ext, n_new) if not bad and n_ext >= 2 and n_new >= 4 else
+                   "a pending range is updated with %s where the cell's range ends at %s (%s)" % (bad[0][1], bad[0][2], bad[0][0]) if bad else "updates not found (%d, %d)" % (n_ext, n_new), at=b.span, kind="N")
+
+
+def term_is_u64(v):
+    from sym import term_ty
+    try: return term_ty(v) == 'u64'
+    except Exception: return False
 
 
 def view_arithmetic(ctx, crate):
